@@ -72,6 +72,9 @@ def deep_equal(seq1: Iterable[Any],
                 return False
             elif value1 is None:
                 return True
+            elif isinstance(value1, XPathMap) ^ isinstance(value2, XPathMap) or \
+                    isinstance(value1, XPathArray) ^ isinstance(value2, XPathArray):
+                return False  # a map, an array and a node are never deep-equal to each other
             elif isinstance(value1, XPathMap):
                 assert isinstance(value2, XPathMap)
                 if not value1 == value2:
